@@ -9,35 +9,39 @@ from trie.constants import BLANK_NODE_HASH
 
 from .hexcommon import lookup_keys, resolve_key, resolve_val
 from .ref.mpt import BLANK_ROOT, RefTrie
-from .util import Abort, cm_enter, cm_exit, expect, expect_eq, impl, nibbles_of
+from .util import Abort, Raised, cm_enter, cm_exit, expect, expect_eq, impl, nibbles_of
 
 
-def apply_simple(trie, model, op):
-    """Apply one set/del/sete op to the trie (through impl) and to the model."""
+def apply_simple(trie, model, op, allowed=()):
+    """
+    Apply one set/del/sete op to the trie (through impl) and to the model.
+    With `allowed` (injected faults) a raised allowed exception leaves the model alone
+    and is reported as ("faulted").
+    """
     kind = op[0]
     key = resolve_key(op[1], sorted(model))
     if kind == "set":
         val = resolve_val(op[2], key)
-        if op[3]:
-            impl("set-never-raises", trie.__setitem__, key, val)
-        else:
-            impl("set-never-raises", trie.set, key, val)
+        fn = trie.__setitem__ if op[3] else trie.set
+        r = impl("set-never-raises", fn, key, val, allowed=allowed)
+        if isinstance(r, Raised):
+            return key, "faulted"
         noop = model.get(key) == val
         model[key] = val
         return key, ("noop-update" if noop else "set")
     if kind == "del":
-        if op[2]:
-            impl("delete-never-raises", trie.__delitem__, key)
-        else:
-            impl("delete-never-raises", trie.delete, key)
+        fn = trie.__delitem__ if op[2] else trie.delete
+        r = impl("delete-never-raises", fn, key, allowed=allowed)
+        if isinstance(r, Raised):
+            return key, "faulted"
         present = key in model
         model.pop(key, None)
         return key, ("delete" if present else "delete-absent")
     if kind == "sete":
-        if op[2]:
-            impl("set-empty-never-raises", trie.__setitem__, key, b"")
-        else:
-            impl("set-empty-never-raises", trie.set, key, b"")
+        fn = trie.__setitem__ if op[2] else trie.set
+        r = impl("set-empty-never-raises", fn, key, b"", allowed=allowed)
+        if isinstance(r, Raised):
+            return key, "faulted"
         present = key in model
         model.pop(key, None)
         return key, ("set-empty" if present else "set-empty-absent")
